@@ -182,6 +182,13 @@ def zipSpecs : List Nat → List Nat → List Spec
 def gjkrChain : List Spec := zipSpecs Gen.C14.gjkrDelays Gen.C14.gjkrActives
 def resultChain : List Spec := zipSpecs Gen.C14.resultDelays Gen.C14.resultActives
 
+/-- `ExecuteDKG`: the result-publication machine is started at the block the GJKR machine ended
+    at.  Nominal block-counter calls of one member relative to the DKG start block, up to the
+    `WaitForBlockHeight` of the last publication state. -/
+def dkgNominal : List Call :=
+  let e := endOf 0 gjkrChain
+  .wait 0 :: sched 0 gjkrChain ++ .wait e :: (sched e resultChain).dropLast
+
 /-! ## monitor: the property as a predicate on what the implementation did -/
 
 /-- observation of one executed state -/
